@@ -404,6 +404,34 @@ theorem alias_same_class :
       | _, _ => false) = true := by
   decide
 
+/-! ## Histories on one live circuit object -/
+
+/-- **`resolve_reads_current_fields`.**  `targets`, `controls`, `arg_value` and the classical condition of a gate object
+are plain public attributes, and gates can be appended to / removed from the circuit.  For every circuit of gate objects
+and every history of such edits and of earlier `resolve_gates` calls (in any bases): the answer of a call is the answer
+for freshly built objects carrying the **current** fields — the model has no memo on gate objects, no state in the
+circuit, and a call leaves the circuit alone.  (The contract the live-object histories check on the code; C01 states it
+as `run_reads_current_fields`, C08 as `history_get_current`.) -/
+theorem resolve_reads_current_fields (v : FVariant) (items : List CircItem) (ops : List HOp) (b : BasisSpec) :
+    runHistory tables labels ruleAlias v items (ops ++ [.resolve b]) =
+      runHistory tables labels ruleAlias v items ops ++
+        [resolveCA tables labels ruleAlias v b (ops.foldl applyHOp items)] :=
+  runHistory_append_resolve tables labels ruleAlias v ops items b
+
+/-- non-vacuity: `[CNOT 0→1, RX(π/4) 1]` resolved in "CNOT"; then the CNOT re-targeted to 2→0, the rotation given the
+angle π/2 and moved to qubit 2, a SNOT appended; resolved again in a CSIGN basis: the second answer is that of the
+edited circuit built afresh -/
+example :
+    let items : List CircItem := [.gate ⟨.CNOT, [1], [0], {}⟩ .none none, .gate ⟨.RX, [1], [], .pi8 2⟩ .none none]
+    let ops : List HOp := [.resolve (.str .CNOT), .setControls 0 [2], .setTargets 0 [0], .setArg 1 (.pi8 4),
+      .setTargets 1 [2], .append (.gate ⟨.SNOT, [1], [], {}⟩ .none none), .resolve (.list [.CSIGN, .RX, .RY])]
+    runHistory tables labels ruleAlias {} items ops =
+      [resolveCA tables labels ruleAlias {} (.str .CNOT) items,
+       resolveCA tables labels ruleAlias {} (.list [.CSIGN, .RX, .RY])
+         [.gate ⟨.CNOT, [0], [2], {}⟩ .none none, .gate ⟨.RX, [2], [], .pi8 4⟩ .none none,
+          .gate ⟨.SNOT, [1], [], {}⟩ .none none]] := by
+  decide
+
 /-! ## The Pauli-marker defect of the original code -/
 
 /-- With the original assignment (`keepMarkers = false`) `[X 0]` resolved in basis "CNOT" is
